@@ -1,7 +1,7 @@
 //! Content variants: small Zydeco source texts with explicit import structure, so the
 //! simulator knows the ground truth of every file's imports because it wrote them.
 
-use crate::world::{MISSING, SLOT_A, SLOT_E, SLOT_H, SLOT_INPUT, SLOTS, Side, directory_of, in_subdirectory};
+use crate::world::{MISSING, MISSING_LOOP, MISSING_TOO_LONG, SLOT_A, SLOT_E, SLOT_H, SLOT_INPUT, SLOTS, Side, directory_of, in_subdirectory};
 use zysim_common::{Rng, Value, json};
 
 pub const BUILTIN: &str = "/repo/lib/std/builtin.zy";
@@ -140,7 +140,13 @@ fn spell(side: &Side, holder: usize, import: &ImportRef) -> String {
     if import.spelling == Spelling::Numbered {
         return "1".to_string();
     }
-    let target = if import.slot == MISSING { "missing.zy" } else { SLOTS[import.slot] };
+    let too_long = format!("{}.zy", "n".repeat(300));
+    let target: &str = match import.slot {
+        | MISSING => "missing.zy",
+        | MISSING_TOO_LONG => &too_long,
+        | MISSING_LOOP => "loop.zy",
+        | slot => SLOTS[slot],
+    };
     let holder_dir = directory_of(holder);
     let from_sub = in_subdirectory(holder);
     // the target relative to the holder's directory
@@ -205,7 +211,8 @@ fn pick_spelling(rng: &mut Rng, holder: usize, target: usize, palette: &Palette)
 
 fn import_of(rng: &mut Rng, holder: usize, palette: &Palette) -> ImportRef {
     if palette.allow_missing && rng.chance(1, 12) {
-        return ImportRef { slot: MISSING, spelling: Spelling::Plain };
+        let slot = *rng.pick(&[MISSING, MISSING, MISSING_TOO_LONG, MISSING_LOOP]);
+        return ImportRef { slot, spelling: Spelling::Plain };
     }
     let slot = *rng.pick(palette.slots);
     ImportRef { slot, spelling: pick_spelling(rng, holder, slot, palette) }
